@@ -96,20 +96,25 @@ void h_sse_bitunpack8_8bit(void) {
 
 /* LZ77 match copy, bounded: every offset 1..32, every len 0..48, arbitrary buffer contents (same
  * statement as h_scalar_match_copy_bounded): 32 bytes of history, guard bytes after dst+len. */
+/* bound of the job: offsets 1..CQV_MC_OFF (<= 32), lengths 0..CQV_MC_LEN */
+#ifndef CQV_MC_OFF
+#define CQV_MC_OFF 32
+#define CQV_MC_LEN 48
+#endif
 void h_sse_match_copy_bounded(void) {
   size_t off = nondet_size_t(), len = nondet_size_t();
-  __CPROVER_assume(off >= 1 && off <= 32 && len <= 48);
-  uint8_t buf[32 + 48 + 16];   /* 32 history bytes, up to 48 copied, 16 guard bytes; contents arbitrary */
+  __CPROVER_assume(off >= 1 && off <= CQV_MC_OFF && len <= CQV_MC_LEN);
+  uint8_t buf[32 + CQV_MC_LEN + 16];   /* 32 history bytes, up to CQV_MC_LEN copied, 16 guard bytes; contents arbitrary */
   size_t m = nondet_size_t(), k = nondet_size_t();
   __CPROVER_assume((m < 32 || m >= 32 + len) && m < sizeof buf && k < len);
   uint8_t old_m = buf[m];
   carquet_sse_match_copy(buf + 32, buf + 32 - off, len, off);
   __CPROVER_assert(buf[m] == old_m, "no byte outside dst[0..len) changes (history before, guard after)");
   __CPROVER_assert(buf[32 + k] == buf[32 + k - off], "dst[k] == dst[k - offset] (history or produced byte)");
-  if (off >= 16 && len >= 40) CQV_CANARY("16-byte fast path with 8-byte and byte tails");
+  if (off >= 16 && len >= CQV_MC_LEN - 5) CQV_CANARY("16-byte fast path with tails");
   if (off == 1 && len > 16) CQV_CANARY("offset 1 fill path");
   if (off == 2 && len > 3) CQV_CANARY("offset 2 path");
-  if (off == 4 && len > 21) CQV_CANARY("offset 4 path");
+  if (off == 4 && len > 21 && len < 32) CQV_CANARY("offset 4 path");
   if (off == 9 && len > 9) CQV_CANARY("general overlapping path");
   CQV_CANARY("returns");
 }
